@@ -121,6 +121,7 @@ func main() {
 		var si, sn uint64 = 0, 1
 		fmt.Sscanf(*shard, "%d/%d", &si, &sn)
 		Shard, Shards = int(si), int(sn)
+		rec.Sync = map[string]bool{"C10": true, "C11": true, "C12": true, "C06": true, "C07": true, "C08": true, "C09": true}[os.Args[2]]
 		if Shard == 0 {
 			runCorpus(rec, os.Args[2])
 		}
